@@ -187,3 +187,21 @@ func svStalls(chunks []int) {
 
 func VerifC11_serve_stalls_quick()    { svStalls([]int{0}) }
 func VerifC11_serve_stalls_thorough() { svStalls([]int{0, 5}) }
+
+// The client stops READING after the server's n-th write (a full socket buffer: the write in flight
+// blocks until the connection is closed), any session, handler panicking or not; then it goes away.
+// The server must still let go: ServeConn returns, the connection is closed - which is what
+// releases the blocked write -, no goroutine of the connection is left.
+func VerifC11_serve_write_stall() {
+	atomic.StoreInt32(&svHandledCtr, 0)
+	svPanicInHandler = vBool("handlerPanics")
+	s := svStart(&Server{}, &http.Server{}, http.HandlerFunc(svEcho))
+	in := svScript(vRange("script", 0, svScripts-1))
+	s.c.stallAfter = vRange("clientStopsReadingAfterWrites", 1, 6)
+	s.c.feed(in)
+	vYield()
+	if s.c.stallAfter <= s.c.writes {
+		vReach("write-blocked-on-a-client-that-stopped-reading")
+	}
+	svFinish(s)
+}
